@@ -180,9 +180,9 @@ type vC20Bus struct {
 	recorded  []vC20Delivery
 	hist      []string // concurrent mode: event log in logical-clock order
 	conc      bool
-	held      map[int]bool // armed: the next callback of the listener blocks at entry
-	blocked   map[int]int  // callbacks blocked at entry, per listener
-	releases  map[int]int  // generation counter of `release`
+	held      map[int]bool   // armed: the next callback of the listener blocks at entry
+	blocked   map[int]int    // callbacks blocked at entry, per listener
+	releases  map[int]int    // generation counter of `release`
 	rereg     map[[2]int]int // (listener, subject) -> variant, armed self re-registration
 	sentinel  map[string]int
 	listeners map[int]*vC20Listener
@@ -437,28 +437,40 @@ func (b *vC20Bus) sync(subjects []int, tag string) bool {
 		switch sub.kind {
 		case "room":
 			b.events.RegisterRoomListener(va.id, va.backend, z)
-			b.events.PublishRoomMessage(va.id, va.backend, m)
 		case "user":
 			b.events.RegisterUserListener(va.id, va.backend, z)
-			b.events.PublishUserMessage(va.id, va.backend, m)
 		case "session":
 			b.events.RegisterSessionListener(va.id, va.backend, z)
-			b.events.PublishSessionMessage(va.id, va.backend, m)
 		case "backendroom":
 			b.events.RegisterBackendRoomListener(va.id, va.backend, z)
-			b.events.PublishBackendRoomMessage(va.id, va.backend, m)
 		}
+		// a sentinel can itself be dropped at a full channel: publish again until one gets through
 		deadline := time.Now().Add(10 * time.Second)
-		b.mu.Lock()
-		for b.sentinel[id] == 0 && time.Now().Before(deadline) {
-			b.mu.Unlock()
-			time.Sleep(100 * time.Microsecond)
-			b.mu.Lock()
+		seen := false
+		for !seen && time.Now().Before(deadline) {
+			switch sub.kind {
+			case "room":
+				b.events.PublishRoomMessage(va.id, va.backend, m)
+			case "user":
+				b.events.PublishUserMessage(va.id, va.backend, m)
+			case "session":
+				b.events.PublishSessionMessage(va.id, va.backend, m)
+			case "backendroom":
+				b.events.PublishBackendRoomMessage(va.id, va.backend, m)
+			}
+			retry := time.Now().Add(50 * time.Millisecond)
+			for !seen && time.Now().Before(retry) {
+				b.mu.Lock()
+				seen = b.sentinel[id] > 0
+				b.mu.Unlock()
+				if !seen {
+					time.Sleep(100 * time.Microsecond)
+				}
+			}
 		}
-		if b.sentinel[id] == 0 {
+		if !seen {
 			okAll = false
 		}
-		b.mu.Unlock()
 		switch sub.kind {
 		case "room":
 			b.events.UnregisterRoomListener(va.id, va.backend, z)
@@ -551,12 +563,28 @@ func vC20ExecDet(c *vCase) {
 				ownSubj = append(ownSubj, s)
 			} else {
 				b.mu.Lock()
+				var armed []int
 				for l := range regd[s] {
-					if !b.held[l] && b.blocked[l] == 0 {
+					if b.held[l] {
+						armed = append(armed, l)
+					} else if b.blocked[l] == 0 {
 						expected++
 					}
 				}
 				b.mu.Unlock()
+				// an armed listener is going to block in this callback: wait until it does
+				for _, l := range armed {
+					deadline := time.Now().Add(3 * time.Second)
+					for time.Now().Before(deadline) {
+						b.mu.Lock()
+						n := b.blocked[l]
+						b.mu.Unlock()
+						if n > 0 {
+							break
+						}
+						time.Sleep(50 * time.Microsecond)
+					}
+				}
 			}
 			b.waitFor(expected, usesHold)
 			out = b.flush(&from)
